@@ -25,7 +25,10 @@ Fail(what, c, info) ==
 BadNF(c) == {Universe[i].id : i \in {j \in DOMAIN Universe :
                 LET r == Eval3(c.ast, Universe[j], Range(Universe)) h == NFHolds(c.nf, Universe[j]) IN ~((r[1] => h) /\ (h => r[2]))}}
 
-RunOK(c, r) == r.err = "" /\ ResultAllowed(Pops[r.layout + 1].files, c.ast, r.sort, r.limit, r.skip, Range(r.ids), r.res, r.more)
+RunOK(c, r) ==
+    /\ r.err = ""
+    /\ IF Len(r.group) = 0 THEN ResultAllowed(Pops[r.layout + 1].files, c.ast, r.sort, r.limit, r.skip, Range(r.ids), r.res, r.more)
+       ELSE ResultAllowedGrouped(Pops[r.layout + 1].files, c.ast, r.sort, r.limit, r.skip, Range(r.ids), r.group, r.res, r.more)
 
 CheckCase(c) ==
     IF c.hang THEN Fail("parse-hang", c, "")                           \* C14's matter; skipped here
